@@ -33,6 +33,7 @@ def run(pid: str, fname: str, rule: str, assumptions: list, extra=None):
                 from harness import genchecks
                 getattr(genchecks, fname)(rep, spec)
             rep.count(2, "replay-a"), rep.count(0, "replay-b")
+            rep.sample({"kind": "replay", "spec": spec})
             rep.set("rule", rule)
             return rep.finish()
         r = tlc.run("MC_Combinators", "MC_Combinators_d1.cfg", workers=16, timeout=1200, coverage=False)
